@@ -244,7 +244,7 @@ def run(repo, rep):
 
     rep.run_borrowed(c11, {"C11-d": "C16-d"}, repo, only_sites=("tflite_writer",))
     rep.clause("C16-g", "rewrites that are applied to operators regardless of their placement re-wire nothing before the merged operator has been found supported: an operator that stays on the CPU stays unchanged [rule shared with C11-m]")
-    rep.run_borrowed(c11, {"C11-m": "C16-g"}, repo)
+    rep.run_borrowed(c11, {"C11-m": "C16-g", "C11-e": "C16-g"}, repo)
     _so, _sem = repo.mod("tflite_supported_operators"), repo.mod("tflite_model_semantic")
     rule_round4(repo, rep, [("tflite_supported_operators", "TFLiteSupportedOperators", registrations(repo, _so, "TFLiteSupportedOperators")[1]),
                             ("tflite_model_semantic", "TFLiteSemantic", registrations(repo, _sem, "TFLiteSemantic")[1])])
